@@ -151,6 +151,10 @@ func (f *Frame) eval(e spec.Expr, st, old *State) TV {
 			return TV{p, types.NewPointer(t)}
 		}
 		xv := f.eval(e.X, st, old)
+		if cs, ok := xv.V.(*Struct); ok && e.Op == "-" && len(cs.Fields) == 2 {
+			// complex negation
+			return TV{&Struct{[]Value{B.FPNeg(cs.Fields[0].(*smt.Term)), B.FPNeg(cs.Fields[1].(*smt.Term))}}, xv.T}
+		}
 		t := xv.V.(*smt.Term)
 		switch e.Op {
 		case "!":
@@ -186,6 +190,13 @@ func (f *Frame) tryIdent(name string, st *State) (TV, bool) {
 	}
 	if v, ok := f.over[name]; ok {
 		return TV{v, f.overType(name)}, true
+	}
+	if f.inOld > 0 {
+		for _, p := range f.fn.Params {
+			if p.Name() == name {
+				return TV{f.val(p), p.Type()}, true
+			}
+		}
 	}
 	if d, ok := f.lookupName(name); ok {
 		v := f.val(d.v)
@@ -313,17 +324,18 @@ func (f *Frame) selectField(xv TV, name string, st *State) TV {
 	}
 	cur := xv.V
 	curT := stT
-	for _, idx := range path {
+	for pos, idx := range path {
+		last := pos == len(path)-1
 		cs := curT.Underlying().(*types.Struct)
 		fld := cs.Field(idx)
 		if isPtr {
 			p := x.fieldAddr(cur, curT, idx)
-			if pp, ok := fld.Type().Underlying().(*types.Pointer); ok && idx != path[len(path)-1] {
+			if pp, ok := fld.Type().Underlying().(*types.Pointer); ok && !last {
 				cur = x.load(st, p, fld.Type())
 				curT = pp.Elem()
 				continue
 			}
-			if idx == path[len(path)-1] {
+			if last {
 				return TV{x.load(st, p, fld.Type()), fld.Type()}
 			}
 			cur = p
@@ -335,7 +347,7 @@ func (f *Frame) selectField(xv TV, name string, st *State) TV {
 			}
 			cur = s.Fields[idx]
 			curT = fld.Type()
-			if pp, ok := curT.Underlying().(*types.Pointer); ok && idx != path[len(path)-1] {
+			if pp, ok := curT.Underlying().(*types.Pointer); ok && !last {
 				isPtr = true
 				curT = pp.Elem()
 			}
@@ -813,6 +825,9 @@ func (f *Frame) evalCall(e *spec.Call, st, old *State) TV {
 		if len(e.Args) != 1 {
 			specErr("old takes one argument")
 		}
+		// inside old(): the heap of the entry state, and parameters stand for their entry values
+		f.inOld++
+		defer func() { f.inOld-- }()
 		return f.eval(e.Args[0], old, old)
 	case "len", "cap":
 		a := f.eval(e.Args[0], st, old)
@@ -965,6 +980,18 @@ func (f *Frame) evalMethodCall(sel *spec.Sel, argsE []spec.Expr, st, old *State)
 	recv := f.eval(sel.X, st, old)
 	if recv.T == nil {
 		specErr("method %s on untyped value", sel.Name)
+	}
+	if it, ok := recv.T.Underlying().(*types.Interface); ok {
+		for i := 0; i < it.NumMethods(); i++ {
+			m := it.Method(i)
+			if m.Name() == sel.Name {
+				if im := x.invokeModel(m.FullName()); im != nil {
+					v := im(f, st, recv.V.(*Struct), nil)
+					return TV{v, m.Type().(*types.Signature).Results().At(0).Type()}
+				}
+			}
+		}
+		specErr("interface method %s has no pure model", sel.Name)
 	}
 	// find method in the method set of T or *T
 	for _, t := range []types.Type{recv.T, types.NewPointer(recv.T)} {
